@@ -236,12 +236,20 @@ func c02Case(t *testing.T, w *verifW, i int, cache bool) (*c02Run, int) {
 	r := w.Rand(i)
 	lim := c17Pick(r, 0, 0, 1, 2, 3, 5)
 	metaIdx := r.Intn(4)
+	corpus := cache && i < 2
+	if corpus {
+		lim, metaIdx = 0, 2
+	}
 	run := &c02Run{sc: &c02Scenario{}, pubs: map[uint64][2]bool{}}
 	synctest.Test(t, func(t *testing.T) {
 		cfg := Config{RecoveryMaxPublicationLimit: lim, HistoryMetaTTL: []time.Duration{0, 3 * time.Second, 0, 5 * time.Second}[metaIdx]}
 		run.env, run.node = c17NewNodeEnv(cfg, metaIdx == 2, c02Setup(run.sc))
 		run.sc.env = run.env
 		defer func() { c17CloseNode(run.node) }()
+		if corpus {
+			c03Corpus(t, run, i)
+			return
+		}
 		c02RandomCase(t, r, run, cache)
 	})
 	return run, lim
@@ -330,6 +338,20 @@ func c02RandomCase(t testing.TB, r *rand.Rand, run *c02Run, cache bool) {
 				}
 			}
 		}
+	}
+}
+
+// c03Corpus: the two minimal witnesses of the known deviations of cache recovery.
+func c03Corpus(t testing.TB, run *c02Run, i int) {
+	switch i {
+	case 0: // all-filtered: the newest publication is retained but excluded by the client filter
+		run.pubs[1], run.pubs[2] = [2]bool{true, true}, [2]bool{true, false}
+		run.base(c17Op{Kind: "pub", Ch: 0, ID: 1, P: &c17Popts{Size: 1, TTL: 60000, Tags: c02Tags(true, true)}})
+		run.base(c17Op{Kind: "pub", Ch: 0, ID: 2, P: &c17Popts{Size: 1, TTL: 60000, Tags: c02Tags(true, false)}})
+		run.subscribe(t, c02Step{Kind: "cache", Ch: 0, Off: 1, Ep: 1, UseC: true, Handler: "no"})
+	case 1: // zero-position: (0, current epoch) on an empty stream with top 0
+		run.subscribe(t, c02Step{Kind: "cache", Ch: 0, Off: 0, Ep: 1, Handler: "no"})
+		run.subscribe(t, c02Step{Kind: "stream", Ch: 0, Off: 0, Ep: 1}) // stream mode reports recovered=true
 	}
 }
 
